@@ -17,6 +17,7 @@ from .interp import is_sym
 nf = z3.Function("nfields", StrS, StrS, IntS)  # number of sep-separated fields of s
 nth = z3.Function("nth", StrS, StrS, IntS, StrS)  # i-th field (no maxsplit)
 rest = z3.Function("rest", StrS, StrS, IntS, StrS)  # s after its i-th separator (rest(s,sep,0) = s)
+lastn = z3.Function("lastn", StrS, StrS, IntS, StrS)  # j-th field from the end (j >= 1)
 WS = " \t\n\r\x0b\x0c\x1c\x1d\x1e\x1f\x85\xa0"
 
 
@@ -206,6 +207,13 @@ class SplitList(LibObj):
         return [self.elem(I, i, n) for i in range(n)]
 
     def getitem(self, I, k, node):
+        if isinstance(k, int) and k < 0:
+            known, total_lits = self.tail_fields(I)
+            if -k <= len(known) or total_lits >= -k:
+                return self.from_end(I, -k)
+            if not I.c.branch(self.n_all >= -k, "index-in-range"):
+                raise RaiseSig(I.make_exc("IndexError", site=node))
+            return self.from_end(I, -k)
         if isinstance(k, int) and k >= 0:
             cap = (self.maxsplit + 1) if self.maxsplit is not None else k + 2
             n = self.fix_length(I, max(cap, k + 1) if self.maxsplit is None else cap)
@@ -214,8 +222,59 @@ class SplitList(LibObj):
             return self.elem(I, k, n)
         raise Unsupported("symbolic index into a split list")
 
+    def tail_fields(self, I):
+        """Fields at the end of the string that are known from its shape (each separator-free): list from the end."""
+        ps = parts_of(self.t)
+        fields = [[]]
+        for p in ps:
+            if isinstance(p, str):
+                chunks = p.split(self.sep)
+                fields[-1].append(chunks[0])
+                for ch in chunks[1:]:
+                    fields.append([ch])
+            else:
+                fields[-1].append(p)
+        out = []
+        for fld in reversed(fields[1:]):  # fields[0] may be glued to an arbitrary prefix
+            hyps = [sepfree_fact(I, p, self.sep) for p in fld if not isinstance(p, str)]
+            if hyps and not I.c.branch(z3.And(*hyps), "field-sepfree"):
+                break
+            out.append(mk_concat(fld))
+        return out, len(fields)
+
+    def from_end(self, I, j):
+        known, total_lits = self.tail_fields(I)
+        if j <= len(known):
+            t = known[j - 1]
+            I.c.assume(lastn(self.t, self.sv, j) == t)
+            I.c.assume(self.n_all >= total_lits)
+            return I.mk(t, "str")
+        e = lastn(self.t, self.sv, j)
+        I.c.assume(L.sepfree(e, self.sv))
+        return I.mk(e, "str")
+
     def slice(self, I, lo, hi):
+        if hi is None and isinstance(lo, int) and lo < 0:
+            k = -lo
+            known, total_lits = self.tail_fields(I)
+            if total_lits > k:
+                I.c.assume(self.n_all >= total_lits)
+                n = k
+            else:
+                i = I.c.choose([self.n_all == m for m in range(1, k)], "split-len")
+                n = i + 1 if i < k - 1 else k
+                if n == k:
+                    I.c.assume(self.n_all >= k)
+                else:
+                    return [I.mk(nth(self.t, self.sv, m), "str") for m in range(n)]
+            return [self.from_end(I, j) for j in range(k, 0, -1)]
         raise Unsupported("slice of a symbolic split list")
+
+    def unpack(self, I, m, node=None):
+        """Tuple-unpacking into m targets: exactly m elements or ValueError."""
+        if not I.c.branch(self.len_term == m, "unpack-len"):
+            raise RaiseSig(I.make_exc("ValueError", site=node))
+        return [self.elem(I, i, m) for i in range(m)]
 
 
 def join_model(I, sep, items):
